@@ -28,6 +28,8 @@ for d in sorted(glob.glob(os.path.join(here, "seeded", "*"))):
         if isinstance(v, dict):
             keys = ", ".join("`" + x.split("/", 1)[1] + "`" for x in v.get("keys", [])[:1] if "/" in x)
             later.append(f"{k} {v['verdict']} ({keys})" if keys else f"{k} {v['verdict']}")
+    if m.get("superseded"):
+        later = ["superseded by a repository fix (see meta.json)"]
     title = ""
     for ln in notes.splitlines():
         if ln.startswith("#"):
